@@ -14,6 +14,6 @@ for d in sorted(glob.glob('/verif/seeded/*-*')):
          "needs_to_manifest": a.get("needs", ""),
          "confirmed": "patch applied in a scratch worktree: full test-suite 3592 passed; demo.py fails with the patch and passes without (tools/seedtest.sh)",
          "checks_run": res,
-         "caught": all(("violations=0" not in r) for r in res.split()) and bool(res)}
+         "caught": any(not r.endswith("violations=0") for r in res.split())}
     json.dump(m, open(d + '/meta.json', 'w'), indent=1)
     print(sid, m["caught"], res)
